@@ -304,7 +304,8 @@ def run(ctx):
         name_ok = False
         name_detail = "sent value %s" % describe(send["a"][0])
         name_u = None
-        sent = peel(send["a"][0], NO_T)
+        so = hirq.origin(fn, send["a"][0])
+        sent = so["expr"] if so.get("from") == "expr" else peel(send["a"][0], NO_T)
         if is_call(sent, "std::boxed::Box::<T>::new") or is_call(sent, "Box::new"):
             sent = peel(sent["a"][0], NO_T)
         ev = local_of(sent, NO_T)
